@@ -134,9 +134,15 @@ def main():
         suite = "skipped"
         if not NOSUITE:
             t0 = time.time()
-            rc, out = netns("go test -vet=off -count=1 -timeout 25m ./... 2>&1 | grep -v '^?' | tail -30", wt, timeout=2400)
-            bad = [l for l in out.splitlines() if l.startswith("FAIL") or l.startswith("--- FAIL") or "panic:" in l]
-            suite = "pass" if (rc == 0 and not bad and "ok " in out) else "FAIL"
+            for attempt in range(3):
+                rc, out = netns("go test -vet=off -count=1 -timeout 25m ./... 2>&1 | grep -v '^?' | grep -v 'logging/logger.go' | tail -60", wt, timeout=2400)
+                bad = [l for l in out.splitlines() if l.startswith("FAIL") or l.lstrip().startswith("--- FAIL") or "panic:" in l]
+                suite = "pass" if (rc == 0 and not bad and "ok " in out) else "FAIL"
+                failed_tests = set(re.findall(r"--- FAIL: (Test\w+)", out))
+                if suite == "pass" or not failed_tests or not failed_tests <= {"TestBindToDevice"}:
+                    break
+                # TestBindToDevice is flaky on the unchanged tree in a private netns (~10%): run again
+                meta.setdefault("flaky_reruns", []).append(sorted(failed_tests))
             meta["suite_wall_s"] = round(time.time() - t0)
             meta["suite_tail"] = out[-1200:]
         meta["suite_with_change"] = suite
